@@ -101,6 +101,80 @@ func harnesses(r *fw.Run) []fw.HarnessSpec {
 		})
 	}}})
 
+	// ---- selection over several refreshes of one pool: connections die, fall behind and recover between refreshes; every
+	// refresh must choose by the rule from the connections' state at that moment (the pool keeps its connection list)
+	hs = append(hs, fw.HarnessSpec{Harness: enum.Harness{Name: "selection-sequences", Bound: 0, Workers: 1, Run: func(c *enum.Ctx) {
+		sched.G = nil
+		n := 3
+		refreshes := r.Pick(2, 3)
+		strategy := []pool.Strategy{pool.BestPingStrategy, pool.FirstWorkingConnection}[c.ChooseFree(2)]
+		rttOrder := [][]time.Duration{{2 * time.Millisecond, time.Millisecond, 3 * time.Millisecond}, {time.Millisecond, 2 * time.Millisecond, 3 * time.Millisecond}, {3 * time.Millisecond, 2 * time.Millisecond, time.Millisecond}}[c.ChooseFree(3)]
+		mocks := make([]*pool.VerifMock, n)
+		for i := range mocks {
+			mocks[i] = &pool.VerifMock{Id: i * 2, OK: true, Seqno: 5, RTT: rttOrder[i]}
+		}
+		// state of a connection at a refresh: 0 alive and current, 1 dead, 2 alive but two blocks behind
+		states := make([][]int, refreshes)
+		desc := ""
+		for k := range states {
+			states[k] = make([]int, n)
+			for i := range states[k] {
+				states[k][i] = c.ChooseFree(3)
+				desc += fmt.Sprint(states[k][i])
+			}
+			desc += "/"
+		}
+		c.Case([]byte(fmt.Sprintf("seq/%s/%v/%s", strategy, rttOrder, desc)), true)
+		c.Sample(map[string]any{"strategy": string(strategy), "rtts": fmt.Sprint(rttOrder), "states_per_refresh": desc})
+		c.Label("%s rtts=%v states=%s", strategy, rttOrder, desc)
+		c.Try("panic:updateBest", func() {
+			p := pool.VerifNewMockPool(strategy, mocks, 0)
+			prev := mocks[0].Id
+			for k := 0; k < refreshes; k++ {
+				for i, m := range mocks {
+					m.OK, m.Seqno = states[k][i] != 1, 5
+					if states[k][i] == 2 {
+						m.Seqno = 3
+					}
+				}
+				p.VerifUpdateBest()
+				got := p.VerifBestID()
+				var max uint32
+				for _, m := range mocks {
+					if m.Seqno > max {
+						max = m.Seqno
+					}
+				}
+				var eligible []*pool.VerifMock
+				for _, m := range mocks {
+					if m.OK && uint64(m.Seqno)+1 >= uint64(max) {
+						eligible = append(eligible, m)
+					}
+				}
+				want := prev
+				if len(eligible) > 0 {
+					want = eligible[0].Id
+					if strategy != pool.FirstWorkingConnection {
+						for _, m := range eligible {
+							if m.RTT < mocks[want/2].RTT {
+								want = m.Id
+							}
+						}
+					}
+				}
+				if got != want {
+					c.Fail("selection-sequence:"+string(strategy), "refresh %d of %d (states %s): the rule selects connection %d, the pool chose %d", k+1, refreshes, desc, want, got)
+					return
+				}
+				if p.ConnectionsNumber() != n {
+					c.Fail("selection-sequence:connections", "the pool reports %d connections after a refresh, it has %d", p.ConnectionsNumber(), n)
+					return
+				}
+				prev = got
+			}
+		})
+	}}})
+
 	// ---- waiting under the scheduler ----------------------------------------------------------------
 	type scenario struct {
 		name     string
